@@ -232,3 +232,78 @@ func (p *Prog) loopCheck(fn *ssa.Function, exitBlock func(b *ssa.BasicBlock, scc
 func caseLeaves(c *SelCase, scc map[*ssa.BasicBlock]bool) bool {
 	return c.Body != nil && !scc[c.Body]
 }
+
+// helperBounded decides the "joined helper" idiom: a single child goroutine whose only
+// potentially blocking operation is a stop call (GracefulStop/Stop) on an owned sub-discipline,
+// started by an entry that (a) stops that same sub-discipline in a deferred call which runs
+// (b) before the deferred wg.Wait() that joins the child. The sub-discipline's Stop() returns
+// only after its goroutine completed all its breakers (its own S4/S8), after which the pending
+// stop call of the helper returns too; so the helper ends without any signal of its own.
+func (p *Prog) helperBounded(d *Disc, child *GoEntry) (ok bool, detail string) {
+	if child.Parent == nil || child.Multi {
+		return false, "not a single child goroutine of another entry"
+	}
+	rt := p.Routine(d, child)
+	for _, fn := range rt.Funcs {
+		for _, op := range p.BlockingOps(fn) {
+			if rt.isSubCall(op.In) {
+				continue
+			}
+			return false, "helper goroutine has a blocking operation of its own (" + op.Kind + " at " + p.InstrPos(op.In) + ")"
+		}
+		if comps := sccs(fn.Blocks, blockSet(fn.Blocks)); len(comps) > 0 {
+			return false, "helper goroutine loops"
+		}
+	}
+	fields := map[string]bool{}
+	for _, sc := range rt.SubCalls {
+		callee := p.Callee(sc)
+		switch callee.Name() {
+		case "GracefulStop", "Stop":
+		case "Err", "Output":
+			continue
+		default:
+			return false, "helper goroutine calls " + callee.Name() + " on a sub-discipline"
+		}
+		_, path, okp := p.Sym(sc.Common().Args[0]).FieldPath()
+		if !okp {
+			return false, "UNDECIDED: receiver of the sub-discipline call is not a field of the struct"
+		}
+		fields[path[len(path)-1]] = true
+	}
+	if len(fields) == 0 {
+		return true, "helper goroutine never blocks"
+	}
+	order, okd := DeferRunOrder(child.Parent.Entry)
+	if !okd {
+		return false, "UNDECIDED: conditional defer in the spawning entry"
+	}
+	wait := -1
+	stopped := map[string]int{}
+	for i, df := range order {
+		k, a := p.deferKind(df)
+		if k == "wgwait" && wait < 0 {
+			wait = i
+		}
+		if k == "call" && strings.HasSuffix(a, ".Stop") {
+			if _, path, okp := p.Sym(df.Common().Args[0]).FieldPath(); okp {
+				if _, seen := stopped[path[len(path)-1]]; !seen {
+					stopped[path[len(path)-1]] = i
+				}
+			}
+		}
+	}
+	if wait < 0 {
+		return false, "the spawning entry never joins the helper (no deferred wg.Wait)"
+	}
+	for f := range fields {
+		i, oks := stopped[f]
+		if !oks {
+			return false, "the spawning entry never stops sub-discipline " + f + " the helper waits for"
+		}
+		if i > wait {
+			return false, "the spawning entry joins the helper before it stops sub-discipline " + f + ": the helper's pending stop call has no reason to return"
+		}
+	}
+	return true, "the spawning entry's deferred Stop() of the same sub-discipline runs before its wg.Wait(): the helper's pending stop call returns once that discipline has completed (run order: " + p.describeDefers(order) + ")"
+}
